@@ -42,6 +42,26 @@ type Gen struct {
 	// touches (SETBIT/SETBITV2 on a key that holds a plain string and an expired
 	// bitmap meta panics the apply loop on the unchanged tree: "bitmap size mismatch").
 	BitmapDedicated bool
+	// DurPool / DurOKPool, if set, replace the TTL duration pools (DurPool: for
+	// the EXPIRE family, whose argument the proposer does not validate; DurOKPool:
+	// valid durations for SET EX / SETEX / SETIFEQ EX).
+	DurPool, DurOKPool []string
+	// Exclude: command names that Next never returns (it draws again).
+	Exclude map[string]bool
+}
+
+func (g *Gen) dur() string {
+	if g.DurPool != nil {
+		return g.pick(g.DurPool)
+	}
+	return g.pick(poolDur)
+}
+
+func (g *Gen) durOK() string {
+	if g.DurOKPool != nil {
+		return g.pick(g.DurOKPool)
+	}
+	return g.pick(poolDurOK)
 }
 
 var (
@@ -115,6 +135,15 @@ func mk(name string, arg1 []byte, rest ...string) Cmd {
 
 // Next generates one write command.
 func (g *Gen) Next() GenCmd {
+	for {
+		c := g.next()
+		if !g.Exclude[c.Cmd.Name()] {
+			return c
+		}
+	}
+}
+
+func (g *Gen) next() GenCmd {
 	t, k := g.table(), g.key()
 	a1 := NsKey(DefaultNamespaceBase, []byte(t), []byte(k))
 	// weights: batchable KV writes are frequent (they are what batches are made of)
@@ -124,7 +153,7 @@ func (g *Gen) Next() GenCmd {
 			return GenCmd{mk("set", g.badTableKey(), g.pick(poolValues)), "kv", "bad-table"}
 		}
 		if g.chance(0.3) {
-			opts := [][]string{{"nx"}, {"xx"}, {"ex", g.pick(poolDurOK)}, {"ex", g.pick(poolDurOK), "nx"}, {"xx", "ex", g.pick(poolDurOK)}, {"NX"}, {"EX", "2"}}[g.R.Intn(7)]
+			opts := [][]string{{"nx"}, {"xx"}, {"ex", g.durOK()}, {"ex", g.durOK(), "nx"}, {"xx", "ex", g.durOK()}, {"NX"}, {"EX", g.durOK()}}[g.R.Intn(7)]
 			return GenCmd{mk("set", a1, append([]string{g.pick(poolValues)}, opts...)...), "kv", ""}
 		}
 		return GenCmd{mk("set", a1, g.pick(poolValues)), "kv", ""}
@@ -132,7 +161,7 @@ func (g *Gen) Next() GenCmd {
 		if g.chance(g.FailBatchable) {
 			return GenCmd{mk("setex", a1, g.pick([]string{"abc", "0", "-1", "", "1.5"}), g.pick(poolValues)), "ttl", "bad-duration"}
 		}
-		return GenCmd{mk("setex", a1, g.pick(poolDurOK), g.pick(poolValues)), "ttl", ""}
+		return GenCmd{mk("setex", a1, g.durOK(), g.pick(poolValues)), "ttl", ""}
 	case w < 25: // del single (batchable)
 		if g.chance(g.FailBatchable) {
 			return GenCmd{mk("del", g.badTableKey()), "kv", "bad-table"}
@@ -183,7 +212,7 @@ func (g *Gen) Next() GenCmd {
 		case 6:
 			return GenCmd{mk("setifeq", a1, g.pick(poolValues), g.pick(poolValues)), "kv", ""}
 		case 7:
-			return GenCmd{mk("setifeq", a1, g.pick(poolValues), g.pick(poolValues), "ex", g.pick(poolDurOK)), "kv", ""}
+			return GenCmd{mk("setifeq", a1, g.pick(poolValues), g.pick(poolValues), "ex", g.durOK()), "kv", ""}
 		case 8:
 			return GenCmd{mk("delifeq", a1, g.pick(poolValues)), "kv", ""}
 		default:
@@ -203,7 +232,7 @@ func (g *Gen) Next() GenCmd {
 		if strings.HasSuffix(name, "persist") {
 			return GenCmd{mk(name, a1), "ttl", ""}
 		}
-		return GenCmd{mk(name, a1, g.pick(poolDur)), "ttl", ""}
+		return GenCmd{mk(name, a1, g.dur()), "ttl", ""}
 	case w < 64: // hash
 		switch g.R.Intn(6) {
 		case 0:
